@@ -393,6 +393,29 @@ func modeEvents(seed uint64, n int, out *sx.Out) {
 			}
 			do(n+ti*3+si, r, g)
 		}
+		// ... and in front of a connection-accepting SYSCALL record with a SOCKADDR record: the record's own addr= and the socket address both claim the source
+		{
+			r := sx.Fork(seed^0x99, uint64(ti))
+			var g group
+			seq, sec := uint32(9000+ti), int64(1500100000+ti)
+			first := genRecord(r, t, seq, sec, []string{"k1"})
+			if !strings.Contains(first, " addr=") && !strings.Contains(first, "msg='") {
+				first += " addr=10.9.8.7"
+			}
+			raws := []struct {
+				t   auparse.AuditMessageType
+				raw string
+			}{{t, first},
+				{auparse.AUDIT_SYSCALL, fmt.Sprintf("audit(%d.123:%d): arch=c000003e syscall=%d success=yes exit=3 a0=1 a1=2 items=0 ppid=1 pid=2 auid=1000 uid=0 gid=0 euid=0 suid=0 fsuid=0 egid=0 sgid=0 fsgid=0 tty=pts0 ses=3 comm=\"cmd\" exe=\"/usr/bin/cmd\" subj=u:r:t:s0:c1 key=(null)", sec, seq, sx.Pick(r, []int{43, 45, 288, 42}))},
+				{auparse.AUDIT_SOCKADDR, fmt.Sprintf("audit(%d.123:%d): saddr=02001F907F0000010000000000000000", sec, seq)}}
+			for _, x := range raws {
+				if m, err := auparse.Parse(x.t, x.raw); err == nil {
+					g.msgs = append(g.msgs, m)
+					g.desc = append(g.desc, x.t.String())
+				}
+			}
+			do(n+len(normTypes)*3+ti, r, g)
+		}
 	}
 }
 
